@@ -22,14 +22,14 @@ TD = scen.HOME_TRASH
 
 
 def dimensions(tier):
-    return {'kinds': 3, 'counts': 2, 'commands': len(CMDS) + (2 if tier == 'thorough' else 0)}
+    return {'kinds': 4, 'counts': 2, 'commands': len(CMDS) + (2 if tier == 'thorough' else 0)}
 
 
 def scenarios(tier):
     out = []
     for cmd in CMDS + (['restore-multi', 'restore-overwrite'] if tier == 'thorough' else []):
         for n in (1, 3):
-            for k in ('file', 'tree', 'ldir'):
+            for k in ('file', 'tree', 'ldir', 'ldang'):
                 out.append({'kind': k, 'n': n, 'cmd': cmd})
     return out
 
